@@ -205,7 +205,14 @@ func runWorkerGMP(bin string, spec workerSpec, scratch string, timeout time.Dura
 		return nil, err
 	}
 	os.Remove(spec.Out)
-	cmd := exec.Command(bin, "-test.run", "^TestWorker$", "-test.timeout", "0")
+	// every worker runs under a hard address-space limit: library code that allocates what an attacker announces
+	// dies of a Go "out of memory" fatal error in its own process (reported as <id>.process-killed) instead of
+	// taking the machine down with it (sixteen workers share the RAM; the sandbox has no memory limit of its own)
+	vmemKB := "3145728"
+	if v := os.Getenv("KMIPVERIF_WORKER_VMEM_KB"); v != "" {
+		vmemKB = v
+	}
+	cmd := exec.Command("sh", "-c", "ulimit -v "+vmemKB+" 2>/dev/null; exec \"$0\" \"$@\"", bin, "-test.run", "^TestWorker$", "-test.timeout", "0")
 	crumb := filepath.Join(scratch, fmt.Sprintf("crumb-%s-%s-%d.json", spec.Property, spec.Mode, spec.Worker))
 	os.Remove(crumb)
 	cmd.Env = append(os.Environ(), "KMIPVERIF_SPEC="+specPath, fmt.Sprintf("GOMAXPROCS=%d", gmp), "GOMEMLIMIT=3GiB", "KMIPVERIF_CRUMB="+crumb)
